@@ -1,3 +1,6 @@
 import PyhmsVerif.Props.C17
 import PyhmsVerif.Props.C16
 import PyhmsVerif.Props.C12
+import PyhmsVerif.Props.C01
+import PyhmsVerif.Props.C05
+import PyhmsVerif.Props.C06
